@@ -109,8 +109,10 @@ def client(code: bytes, salt: bytes, B_bytes: bytes, a: int, user: bytes = USERN
     return ClientResult(a, A_bytes, u, S, K, M1, proof_M2(A_bytes, M1, K))
 
 
-# ---- accessory-side formulas (RFC 5054 server), used only to *choose* inputs (forced leading-zero
-# ---- cases) and to build the attacker's S = 0 proof; never to judge the implementation.
+# ---- accessory-side formulas (RFC 5054 server), used to *choose* inputs (forced leading-zero cases), to
+# ---- build the attacker's S = 0 proof, and (server_expected) to evaluate the SPECIFICATION predicate of the
+# ---- C01 theorems ("this M3 carries the proof expected for its A") independently of pyhap and of the Lean
+# ---- model; the implementation itself is judged by the client-side formulas only.
 
 
 def server_B(code: bytes, salt: bytes, b: int, user: bytes = USERNAME) -> int:
@@ -123,6 +125,19 @@ def server_S(code: bytes, salt: bytes, b: int, A_bytes: bytes, user: bytes = USE
     B_bytes = i2b((k_mult() * v + pow(G, b, N)) % N)
     u = u_of(A_bytes, B_bytes)
     return pow(b2i(A_bytes) * pow(v, u, N), b, N)
+
+
+def server_expected(code: bytes, salt: bytes, b: int, A_bytes: bytes, user: bytes = USERNAME, vB=None):
+    """(K, M1, M2) an RFC 5054 server with password `code`, salt and secret b expects for public value A.
+    `vB` = (v, B_bytes) if the caller already has them for this (code, salt, b)."""
+    if vB is None:
+        v = pow(G, x_of(salt, code, user), N)
+        vB = (v, i2b((k_mult() * v + pow(G, b, N)) % N))
+    v, B_bytes = vB
+    S = pow(b2i(A_bytes) * pow(v, u_of(A_bytes, B_bytes), N), b, N)
+    K = H(i2b(S))
+    M1 = proof_M1(user, salt, A_bytes, B_bytes, K)
+    return K, M1, proof_M2(A_bytes, M1, K)
 
 
 def degenerate_proof(salt: bytes, A_bytes: bytes, B_bytes: bytes, user: bytes = USERNAME):
